@@ -171,7 +171,7 @@ add_binfunc!(add_int_pow, pow, X_INT, Int, X_INT, |a: &LazyBigint,
         rt.can_allocate_by(|| {
             b.to_usize()
                 .zip(a.bits().to_usize())
-                .map(|(b, a_bits)| (a_bits / 8) * b)
+                .map(|(b, a_bits)| (a_bits / 8).saturating_mul(b))
         })?;
         Ok(XValue::Int(a.clone().pow(b.clone())))
     }
@@ -398,7 +398,7 @@ pub(crate) fn add_int_permutation<W, R, T>(
             if k > n{
                 return xerr(ManagedXError::new("k cannot be greater than n", rt)?);
             }
-            let total = (n-k+1..=n).product();
+            let Some(total) = (n-k+1..=n).try_fold(1usize, |acc, x| acc.checked_mul(x)) else { return xerr(ManagedXError::new("n out of bounds", rt)?); };
             if i >= total{
                 return xerr(ManagedXError::new("i too large", rt)?);
             }
